@@ -2,6 +2,10 @@
 //! shapes, iterator lengths, and created - destroyed == len + held after every step; no panic
 //! anywhere except the documented ones.
 
+/// Half of the address space (2^63 on 64-bit targets) and the square root of its size (2^32 there).
+pub const HALF: usize = (usize::MAX >> 1) + 1;
+pub const SQRT: usize = 1 << (usize::BITS / 2);
+
 use crate::deq::{Deq, RangeArg};
 use crate::model::range_must_panic;
 use crate::tracked::Unit;
@@ -16,12 +20,12 @@ use std::sync::Mutex;
 pub const CAPS: [usize; 13] = [
     usize::MAX,
     usize::MAX - 1,
-    (1 << 63) + 1,
-    1 << 63,
-    (1 << 63) - 1,
-    (1 << 32) + 1,
-    1 << 32,
-    (1 << 32) - 1,
+    HALF + 1,
+    HALF,
+    HALF - 1,
+    SQRT + 1,
+    SQRT,
+    SQRT - 1,
     65537,
     3,
     2,
@@ -40,12 +44,12 @@ fn make(ci: usize, boxed: bool) -> Box<dyn Deq<Unit>> {
     match ci {
         0 => mk::<{ usize::MAX }>(boxed),
         1 => mk::<{ usize::MAX - 1 }>(boxed),
-        2 => mk::<{ (1 << 63) + 1 }>(boxed),
-        3 => mk::<{ 1 << 63 }>(boxed),
-        4 => mk::<{ (1 << 63) - 1 }>(boxed),
-        5 => mk::<{ (1 << 32) + 1 }>(boxed),
-        6 => mk::<{ 1 << 32 }>(boxed),
-        7 => mk::<{ (1 << 32) - 1 }>(boxed),
+        2 => mk::<{ HALF + 1 }>(boxed),
+        3 => mk::<{ HALF }>(boxed),
+        4 => mk::<{ HALF - 1 }>(boxed),
+        5 => mk::<{ SQRT + 1 }>(boxed),
+        6 => mk::<{ SQRT }>(boxed),
+        7 => mk::<{ SQRT - 1 }>(boxed),
         8 => mk::<65537>(boxed),
         9 => mk::<3>(boxed),
         10 => mk::<2>(boxed),
@@ -163,7 +167,7 @@ pub fn run_zcase(c: &ZCase) -> Result<u64, String> {
     let n = CAPS[ci];
     Unit::reset();
     let mut flags = 0u64;
-    if n >= 1 << 32 {
+    if n >= SQRT {
         flags |= ZF_BIG | ZF_NEAR_EDGE;
     }
     let mut b = make(ci, c.boxed);
